@@ -1,7 +1,7 @@
 (* Model/C07Run.v - case type and checker evaluated on harness-generated cases (C07).
    Every observation was made on the REAL client (child process of harness/c07). *)
 From ReqV Require Export Lib.Bytes Model.Decode Model.BodyStages Model.H1Resp Model.H1Limits Model.AltSvc.
-From ReqV Require Model.Digest.
+From ReqV Require Model.Digest Model.H3Frame Model.H3Limits.
 
 (* run-length piece for big hostile streams: [repN n b] = n copies of byte b *)
 Definition repN (n b : N) : bytes := repeat (byte_of_N_total b) (N.to_nat n).
@@ -20,7 +20,10 @@ Inductive c07_case :=
 (* altsvcutil.ParseHeader on a header text: entries (protocol, host, port, "ma accepted") and error *)
 | AltSvcCase (input : bytes) (obs : list (bytes * bytes * bytes * bool)) (obs_err : perr)
 (* parseChallenge on a WWW-Authenticate text: accepted or not *)
-| ChallengeCase (input : bytes) (obs_ok : bool).
+| ChallengeCase (input : bytes) (obs_ok : bool)
+(* bytes served on an HTTP/3 response stream to the real client (default control stream);
+   [max] = MaxResponseHeaderBytes, [q] = what quic-go's QPACK decoder makes of each field section *)
+| H3Case (max : N) (q : H3Limits.qoracle) (stream : bytes) (obs : h1obs).
 
 Definition perr_eqb (a b : perr) : bool :=
   match a, b with
@@ -77,4 +80,10 @@ Definition c07_check (c : c07_case) : bool :=
       list_eqb entry_eqb es' es && perr_eqb e' e
   | ChallengeCase v ok =>
       Bool.eqb (match Digest.parse_challenge v with inl _ => true | inr _ => false end) ok
+  | H3Case max q s o =>
+      match H3Limits.h3_read_call max q s, o with
+      | H3Limits.H3Resp _ code _, OResp code' _ _ => (code =? code')%Z
+      | H3Limits.H3CallErr _, OErr | H3Limits.H3TooMany1xx, OErr => true
+      | _, _ => false
+      end
   end.
